@@ -523,11 +523,9 @@ class _DWalker(FlowWalker):
             env.names[a.vararg.arg] = rest
         if a.kwarg is not None:
             known = set(names) | {x.arg for x in a.kwonlyargs}
-            extra = star
-            for k, v in kwargs.items():
-                if k not in known:
-                    extra |= flat(v)
-            env.names[a.kwarg.arg] = extra
+            # the keyword arguments the callee does not name stay apart, each under its own key (they are handed on with **name)
+            extra = {k: v for k, v in kwargs.items() if k not in known}
+            env.names[a.kwarg.arg] = DictVal(extra, star) if extra else star
         self.an.bindings.setdefault(callee.qual, []).append(dict(env.names))
         self.an.depth += 1
         self.an.stack.append(callee.qual)
